@@ -18,14 +18,41 @@
   instruction lists the backend emits, for ALL operand values, on the block semantics
   `Scc.RV.execList` (consecutive instructions of the machine's `exec`) and, for code with the local
   forward labels of memory.rs, `Scc.RV.execFwd` (Scc/RV/MemLemmas.lean).  B-memory: the combinators
-  `skip_if_zero` / `if_zero_then_else`, `share_block_n` and `erase_block` (all three cases); NOT
-  `acquire_block`, `store`, `load`.  NOT proved (kept as `def … : Prop`): the full statement `C08_statement`
-  (needs Theorem A = the generic simulation, and the memory contracts of memory.rs) and the
+  `skip_if_zero` / `if_zero_then_else`, `share_block_n` and `erase_block` (all three cases), and the
+  MEMORY CONTRACTS against the heap model Scc/Heap/Model.lean (same vocabulary as the x86-64 contracts
+  `C06_*_correct`: `Boundary` / `HeapRel` + "the model operation succeeds" ⟹ the generator run succeeds,
+  the emitted list executes (`execFwd`) to a state that again satisfies `Boundary` / `HeapRel` for the
+  model's result, results in the right registers, a frame condition `FrameR` on everything else):
+      `C08_acquire_block_correct`  `acquire_block` against `Scc.Heap.acquire`: (1) next block of the linear
+        free list, (2) head of the lazy free list with erasure of its children, (3) bump allocation.
+      `C08_store_correct`  `store` against `Scc.Heap.storeObj` for ANY number of fields (one block for
+        up to 3 fields, otherwise a chain of linked blocks) — within the capacity of the real code
+        (14 variables; beyond it the Rust code panics "Out of registers" and emits nothing).
+      `C08_load_correct`  `load` against `Scc.Heap.loadObj` for ANY number of fields: unique branch
+        (count 0: the blocks go back onto the linear free list, the children move) and shared branch
+        (count > 0: decrement, every pointer child is shared); `C08_load_unique_correct` /
+        `C08_load_shared_correct` are the two branches separately.  The only side condition (shared
+        branch): the incremented reference counts of the model, which are unbounded naturals, fit in 64 bits.
+      `C08_machine_run_fwd`  THE BRIDGE from `execFwd` to the machine's `runLoop`: if the laid-out
+        program contains the (comment-free part of the) block at the current item and the block's labels
+        resolve into the block, then whenever `execFwd` runs the block to its end, `runLoop` does the
+        same and continues just behind the block.
+      `C08_acquire_block_runs` / `C08_store_runs` / `C08_load_runs`  the three contracts ON THE RUN LOOP:
+        the code of memory.rs is runnable item by item for ALL arguments (`store_free`, `load_free`,
+        `acquireBlock_free`: no use of the own code address; `LabsIn`: labels `lab<n>`, never `cleanup`),
+        so wherever the laid-out program contains the block, `runLoop` executes it with the contract's effect.
+  NOT proved (kept as `def … : Prop`): the full statement `C08_statement`
+  (needs Theorem A = the generic simulation on top of these contracts) and the
   agreement with the other backends `C08_agreement_statement`; both are tested by
   /verif/gen/cross_backend.py (RV = A64 = positional machine on 371 generated programs × 3 inputs).
 -/
 import Scc.RV.Lemmas
 import Scc.RV.MemLemmas
+import Scc.RV.MemProofsHeap
+import Scc.RV.MemProofsStore
+import Scc.RV.MemProofsLoad
+import Scc.RV.MemProofsRun
+import Scc.RV.MemProofsFree
 import Scc.AxCut.LinTyping
 
 namespace Scc.RV
@@ -312,6 +339,169 @@ theorem C08_B_eraseBlock (r : Register) (c : Nat) (s : State) (hs : s.WF) (p f :
 
 end contracts
 
+/-! ### memory contracts against the heap model (Scc/Heap/Model.lean): acquire_block -/
+
+section memory
+variable {cfg : MonCfg} {la : String → Option Nat} {st : State}
+
+/-- `acquire_block` implements `Scc.Heap.acquire`: the target `nb` ends up holding the acquired block,
+HEAP/FREE/heap represent the model's result; besides `nb` only the additional temporary `at'` (through
+which the children of a lazily freed block are erased), TEMP, HEAP, FREE and the heap change; the code
+defines exactly fresh labels.  (`nb`, `at'`: any two different variable registers X4..X31; in `store`
+they are the two temporaries of one context position.) -/
+theorem C08_acquire_block_correct (B : Boundary cfg st) {h h' : Scc.Heap.HState} (R : HeapRel cfg st h)
+    {nb at' : Register} (hn1 : 4 ≤ nb.n) (hn2 : nb.n < 32) (ha1 : 4 ≤ at'.n) (ha2 : at'.n < 32)
+    (hna : nb.n ≠ at'.n) {new : Nat} (hop : Scc.Heap.acquire h = .ok (h', new)) (k : Nat) :
+    ∃ code, (acquireBlock nb at').run k = .ok (code, k + 13) ∧ LabsIn code k (k + 13) ∧
+      ∃ st', execFwd cfg la code st = .ok (st', .fall) ∧ Boundary cfg st' ∧ HeapRel cfg st' h' ∧
+        (∃ w, st'.readReg nb = .ok w ∧ w.toNat = new) ∧
+        FrameR st st' (fun u => u = nb.n ∨ u = at'.n ∨ u = TEMP.n ∨ u = HEAP.n ∨ u = FREE.n) :=
+  acquireBlock_contract B R hn1 hn2 ha1 ha2 hna hop k
+
+/-- `store` implements `Scc.Heap.storeObj`: the variables `toStore` at context positions `|rem| …`
+(`EnvFieldsM`: an `ext` variable holds an integer in its second register, any other variable a pointer
+in its first and a word in its second register — `posReg n = n + 4` is utils.rs
+`2 * position + number + RESERVED`) are stored as one object; the first register of position `|rem|`
+ends up holding the object pointer.  Changed besides TEMP/HEAP/FREE/heap: only registers of the stored
+positions (`StoredReg`: targets and additional temporaries of `acquire_block`).  Preserved: every
+variable of `rem`, every register beyond the stored positions, pc, step counter.
+Capacity: `rem ++ toStore` has at most 14 variables and position `|rem|` (where the result goes) exists;
+this is exactly when the real generator does not panic. -/
+theorem C08_store_correct (B : Boundary cfg st) {h h' : Scc.Heap.HState} (R : HeapRel cfg st h)
+    {toStore rem : Ctx} {fs : List Scc.Heap.Field} (hcap : 2 * (rem.length + toStore.length) ≤ 28)
+    (hrem : rem.length < 14) (hE : EnvFieldsM st rem.length toStore fs) {ptr : Nat}
+    (hop : Scc.Heap.storeObj h fs = .ok (h', ptr)) (k : Nat) :
+    ∃ code k', (rvBackend.store toStore rem).run k = .ok (code, k') ∧ k ≤ k' ∧ LabsIn code k k' ∧
+      ∃ st', execFwd cfg la code st = .ok (st', .fall) ∧ Boundary cfg st' ∧ HeapRel cfg st' h' ∧
+        (∃ w, st'.readReg (posTemp (2 * rem.length)) = .ok w ∧ w.toNat = ptr) ∧
+        FrameR st st' (fun u => u = TEMP.n ∨ u = HEAP.n ∨ u = FREE.n ∨
+          StoredReg rem.length toStore.length u) :=
+  store_contract B R hcap hrem hE hop k
+
+/-- `load` implements `Scc.Heap.loadObj` (`kindOf b` = the variable has a pointer part): the object
+whose pointer is in the first register of position `|existing|` is unpacked into the variables
+`toLoad`; afterwards they hold the loaded fields (`EnvFieldsM`).  Changed: TEMP, HEAP, the heap, the
+registers of the loaded positions.  Preserved: FREE, every variable of `existing`, every register beyond
+the loaded positions, pc, step counter. -/
+theorem C08_load_correct (B : Boundary cfg st) {h h' : Scc.Heap.HState} (R : HeapRel cfg st h)
+    {toLoad existing : Ctx} (hcap : 2 * (existing.length + toLoad.length) ≤ 28) {pw : Word}
+    (hp : st.readReg (posTemp (2 * existing.length)) = .ok pw) {vals : List Scc.Heap.Field}
+    (hop : Scc.Heap.loadObj h pw.toNat (toLoad.map kindOf) = .ok (h', vals))
+    (hno : h.mem.get pw.toNat ≠ 0 → ∀ a, h'.mem.get a < 2 ^ 64) (k : Nat) :
+    ∃ code k', (rvBackend.load toLoad existing).run k = .ok (code, k') ∧ k ≤ k' ∧ LabsIn code k k' ∧
+      ∃ st', execFwd cfg la code st = .ok (st', .fall) ∧ Boundary cfg st' ∧ HeapRel cfg st' h' ∧
+        EnvFieldsM st' existing.length toLoad vals ∧
+        FrameR st st' (fun u => u = TEMP.n ∨ u = HEAP.n ∨
+          ∃ m, 2 * existing.length ≤ m ∧ m < 2 * (existing.length + toLoad.length) ∧ u = posReg m) :=
+  load_contract B R hcap hp hop hno k
+
+/-- the UNIQUE branch of `load` (the object's count is 0): no side condition -/
+theorem C08_load_unique_correct (B : Boundary cfg st) {h h' : Scc.Heap.HState} (R : HeapRel cfg st h)
+    {toLoad existing : Ctx} (hcap : 2 * (existing.length + toLoad.length) ≤ 28) {pw : Word}
+    (hp : st.readReg (posTemp (2 * existing.length)) = .ok pw) (hcnt : h.mem.get pw.toNat = 0)
+    {vals : List Scc.Heap.Field}
+    (hop : Scc.Heap.loadObj h pw.toNat (toLoad.map kindOf) = .ok (h', vals)) (k : Nat) :
+    ∃ code k', (rvBackend.load toLoad existing).run k = .ok (code, k') ∧ k ≤ k' ∧ LabsIn code k k' ∧
+      ∃ st', execFwd cfg la code st = .ok (st', .fall) ∧ Boundary cfg st' ∧ HeapRel cfg st' h' ∧
+        EnvFieldsM st' existing.length toLoad vals ∧
+        FrameR st st' (fun u => u = TEMP.n ∨ u = HEAP.n ∨
+          ∃ m, 2 * existing.length ≤ m ∧ m < 2 * (existing.length + toLoad.length) ∧ u = posReg m) :=
+  load_contract B R hcap hp hop (fun hne => absurd hcnt hne) k
+
+set_option linter.unusedVariables false in
+/-- the SHARED branch of `load` (the object's count is not 0) -/
+theorem C08_load_shared_correct (B : Boundary cfg st) {h h' : Scc.Heap.HState} (R : HeapRel cfg st h)
+    {toLoad existing : Ctx} (hcap : 2 * (existing.length + toLoad.length) ≤ 28) {pw : Word}
+    (hp : st.readReg (posTemp (2 * existing.length)) = .ok pw) (hcnt : h.mem.get pw.toNat ≠ 0)
+    {vals : List Scc.Heap.Field}
+    (hop : Scc.Heap.loadObj h pw.toNat (toLoad.map kindOf) = .ok (h', vals))
+    (hno : ∀ a, h'.mem.get a < 2 ^ 64) (k : Nat) :
+    ∃ code k', (rvBackend.load toLoad existing).run k = .ok (code, k') ∧ k ≤ k' ∧ LabsIn code k k' ∧
+      ∃ st', execFwd cfg la code st = .ok (st', .fall) ∧ Boundary cfg st' ∧ HeapRel cfg st' h' ∧
+        EnvFieldsM st' existing.length toLoad vals ∧
+        FrameR st st' (fun u => u = TEMP.n ∨ u = HEAP.n ∨
+          ∃ m, 2 * existing.length ≤ m ∧ m < 2 * (existing.length + toLoad.length) ∧ u = posReg m) :=
+  load_contract B R hcap hp hop (fun _ => hno) k
+
+end memory
+
+/-- THE BRIDGE for blocks with forward local labels: if the laid-out program contains the comment-free
+part of the block at item `s.pc` (`layout` drops plain comments) and the labels the block defines
+resolve into the block (`BlockAt`: they are defined nowhere earlier in the text), and the block can be
+run item by item (`Runnable`, decided by `runnableB`: no instruction uses its own code address — no
+`JALR`, no `JAL` with a link register — and the label `cleanup` is not defined in it), then whenever
+`execFwd` runs the block to its end, the machine's `runLoop` does the same: it consumes `k` units of
+fuel and continues just behind the block with the registers and memory `execFwd` computed. -/
+theorem C08_machine_run_fwd (p : Program) (cfg : MonCfg) (codes : List Code) (s s' : State)
+    (hb : BlockAt p s.pc (stripComments codes)) (hr : Runnable (stripComments codes))
+    (hx : execFwd cfg p.labelAddr codes s = .ok (s', .fall)) :
+    ∃ k steps', ∀ fuel, runLoop p cfg (fuel + k) s =
+      runLoop p cfg fuel (setPS s' (s.pc + (stripComments codes).length) steps') :=
+  run_fwd_block p cfg codes s s' hb hr hx
+
+/-! ### the memory contracts on the machine's run loop -/
+
+section runs
+variable {cfg : MonCfg} {st : State} (p : Program)
+
+/-- `acquire_block` on the run loop: wherever the laid-out program `p` contains the emitted block at the
+current item (`BlockAt`), `runLoop` executes it: after `n` units of fuel it continues behind the block in
+the state `s'` of `C08_acquire_block_correct` (up to pc and step counter, `setPS`). -/
+theorem C08_acquire_block_runs (B : Boundary cfg st) {h h' : Scc.Heap.HState} (R : HeapRel cfg st h)
+    {nb at' : Register} (hn1 : 4 ≤ nb.n) (hn2 : nb.n < 32) (ha1 : 4 ≤ at'.n) (ha2 : at'.n < 32)
+    (hna : nb.n ≠ at'.n) {new : Nat} (hop : Scc.Heap.acquire h = .ok (h', new)) (k : Nat) :
+    ∃ code, (acquireBlock nb at').run k = .ok (code, k + 13) ∧
+      (BlockAt p st.pc (stripComments code) →
+        ∃ n s' steps', (∀ fuel, runLoop p cfg (fuel + n) st =
+            runLoop p cfg fuel (setPS s' (st.pc + (stripComments code).length) steps')) ∧
+          Boundary cfg s' ∧ HeapRel cfg s' h' ∧ (∃ w, s'.readReg nb = .ok w ∧ w.toNat = new) ∧
+          FrameR st s' (fun u => u = nb.n ∨ u = at'.n ∨ u = TEMP.n ∨ u = HEAP.n ∨ u = FREE.n)) := by
+  obtain ⟨code, hrun, hl, s', hx, B', R', hw, F⟩ :=
+    C08_acquire_block_correct (la := p.labelAddr) B R hn1 hn2 ha1 ha2 hna hop k
+  refine ⟨code, hrun, fun hb => ?_⟩
+  obtain ⟨n, steps', hn⟩ := mem_block_runs p cfg (acquireBlock_free nb at' k code _ hrun) hl hb hx
+  exact ⟨n, s', steps', hn, B', R', hw, F⟩
+
+/-- `store` on the run loop -/
+theorem C08_store_runs (B : Boundary cfg st) {h h' : Scc.Heap.HState} (R : HeapRel cfg st h)
+    {toStore rem : Ctx} {fs : List Scc.Heap.Field} (hcap : 2 * (rem.length + toStore.length) ≤ 28)
+    (hrem : rem.length < 14) (hE : EnvFieldsM st rem.length toStore fs) {ptr : Nat}
+    (hop : Scc.Heap.storeObj h fs = .ok (h', ptr)) (k : Nat) :
+    ∃ code k', (rvBackend.store toStore rem).run k = .ok (code, k') ∧
+      (BlockAt p st.pc (stripComments code) →
+        ∃ n s' steps', (∀ fuel, runLoop p cfg (fuel + n) st =
+            runLoop p cfg fuel (setPS s' (st.pc + (stripComments code).length) steps')) ∧
+          Boundary cfg s' ∧ HeapRel cfg s' h' ∧
+          (∃ w, s'.readReg (posTemp (2 * rem.length)) = .ok w ∧ w.toNat = ptr) ∧
+          FrameR st s' (fun u => u = TEMP.n ∨ u = HEAP.n ∨ u = FREE.n ∨
+            StoredReg rem.length toStore.length u)) := by
+  obtain ⟨code, k', hrun, _, hl, s', hx, B', R', hw, F⟩ :=
+    C08_store_correct (la := p.labelAddr) B R hcap hrem hE hop k
+  refine ⟨code, k', hrun, fun hb => ?_⟩
+  obtain ⟨n, steps', hn⟩ := mem_block_runs p cfg (store_free toStore rem k code _ hrun) hl hb hx
+  exact ⟨n, s', steps', hn, B', R', hw, F⟩
+
+/-- `load` on the run loop (both branches; `hno` concerns the shared branch only) -/
+theorem C08_load_runs (B : Boundary cfg st) {h h' : Scc.Heap.HState} (R : HeapRel cfg st h)
+    {toLoad existing : Ctx} (hcap : 2 * (existing.length + toLoad.length) ≤ 28) {pw : Word}
+    (hp : st.readReg (posTemp (2 * existing.length)) = .ok pw) {vals : List Scc.Heap.Field}
+    (hop : Scc.Heap.loadObj h pw.toNat (toLoad.map kindOf) = .ok (h', vals))
+    (hno : h.mem.get pw.toNat ≠ 0 → ∀ a, h'.mem.get a < 2 ^ 64) (k : Nat) :
+    ∃ code k', (rvBackend.load toLoad existing).run k = .ok (code, k') ∧
+      (BlockAt p st.pc (stripComments code) →
+        ∃ n s' steps', (∀ fuel, runLoop p cfg (fuel + n) st =
+            runLoop p cfg fuel (setPS s' (st.pc + (stripComments code).length) steps')) ∧
+          Boundary cfg s' ∧ HeapRel cfg s' h' ∧ EnvFieldsM s' existing.length toLoad vals ∧
+          FrameR st s' (fun u => u = TEMP.n ∨ u = HEAP.n ∨
+            ∃ m, 2 * existing.length ≤ m ∧ m < 2 * (existing.length + toLoad.length) ∧ u = posReg m)) := by
+  obtain ⟨code, k', hrun, _, hl, s', hx, B', R', hE, F⟩ :=
+    C08_load_correct (la := p.labelAddr) B R hcap hp hop hno k
+  refine ⟨code, k', hrun, fun hb => ?_⟩
+  obtain ⟨n, steps', hn⟩ := mem_block_runs p cfg (load_free toLoad existing k code _ hrun) hl hb hx
+  exact ⟨n, s', steps', hn, B', R', hE, F⟩
+
+end runs
+
 /-! ## non-vacuity: a concrete well-formed state satisfying the hypotheses -/
 
 /-- a state with `X5 = 7`, `X7 = -3`, everything else undefined -/
@@ -336,6 +526,367 @@ example : checkAddr {} heapBase = .ok () := by simp [checkAddr, heapBase]
 example : skipTo (labName 1) [.COMMENT "x", .LW TEMP ⟨6⟩ 0, .ADDI TEMP TEMP 1, .SW TEMP ⟨6⟩ 0] = none := by
   rfl
 
+/-! ### memory contracts: a concrete machine state with a heap -/
+
+/-- the entry state of the machine (`X2 = heap base`, `X3 = X2 + 64`) with `X5 = 7`, `X7 = -3` and a
+heap pointer (block 2 of the heap) in `X6` -/
+def exStateH : State :=
+  { regs := (((((Array.replicate 32 none).setIfInBounds 2 (some 0x10000000#64)).setIfInBounds 3
+      (some 0x10000040#64)).setIfInBounds 5 (some 7#64)).setIfInBounds 6 (some 0x10000080#64)).setIfInBounds 7
+        (some (-3 : Word)),
+    mem := ∅, pc := 0 }
+
+theorem exStateH_boundary : Boundary {} exStateH := ⟨by simp [State.WF, exStateH, registerNum], by decide⟩
+
+def exHeap : Scc.Heap.HState := Scc.Heap.init 0x10000000 (0x10000000 + 0x2000000)
+
+theorem exStateH_heapRel : HeapRel {} exStateH exHeap :=
+  ⟨rfl, rfl, fun a => by simp [exHeap, Scc.Heap.init, exStateH],
+   ⟨0x10000000#64, by simp [State.readReg, exStateH, HEAP], by decide⟩,
+   ⟨0x10000040#64, by simp [State.readReg, exStateH, FREE], by decide⟩⟩
+
+theorem exAcquire : Scc.Heap.acquire exHeap =
+    .ok ({ exHeap with heap := 0x10000040, free := 0x10000080 }, 0x10000000) := by
+  simp [Scc.Heap.acquire, Scc.Heap.rd, exHeap, Scc.Heap.init, Scc.Heap.blockSize]
+
+/-- bump allocation into `X8` (additional temporary `X9`): `X8` ends up holding the old HEAP, `X5`
+(= 7) is kept -/
+example : ∃ code st', (acquireBlock ⟨8⟩ ⟨9⟩).run 0 = .ok (code, 13) ∧
+    execFwd {} (fun _ => none) code exStateH = .ok (st', .fall) ∧
+    st'.readReg ⟨8⟩ = .ok 0x10000000#64 ∧ st'.readReg ⟨5⟩ = .ok 7#64 := by
+  obtain ⟨code, hrun, _, st', hx, _, _, ⟨w, hw, ew⟩, F⟩ := C08_acquire_block_correct (la := fun _ => none)
+    exStateH_boundary exStateH_heapRel (nb := ⟨8⟩) (at' := ⟨9⟩) (by decide) (by decide) (by decide)
+    (by decide) (by decide) exAcquire 0
+  refine ⟨code, st', hrun, hx, ?_, ?_⟩
+  · rw [hw]; congr 1; exact BitVec.eq_of_toNat_eq (by rw [ew]; rfl)
+  · rw [F.readReg ⟨5⟩ (by simp) (by decide)]
+    simp [State.readReg, exStateH]
+
+/-- a heap whose linear free list is exhausted (`[HEAP] = 0`) and whose lazy free list starts with the
+block 0x10000040 (next: 0x10000100) that still references the child 0x100000c0 (count 1) -/
+def exMemLazy : Scc.Heap.Mem :=
+  ((Scc.Heap.Mem.empty.set 0x10000040 0x10000100).set 0x10000050 0x100000c0).set 0x100000c0 1
+
+def exHeapLazy : Scc.Heap.HState := { exHeap with mem := exMemLazy }
+
+def exStateLazy : State :=
+  { exStateH with mem := (((∅ : Std.HashMap Nat Word).insert 0x10000040 0x10000100#64).insert 0x10000050
+      0x100000c0#64).insert 0x100000c0 1#64 }
+
+theorem exStateLazy_boundary : Boundary {} exStateLazy :=
+  ⟨by simp [State.WF, exStateLazy, exStateH, registerNum], by decide⟩
+
+theorem exStateLazy_heapRel : HeapRel {} exStateLazy exHeapLazy := by
+  refine ⟨rfl, rfl, fun a => ?_, ⟨0x10000000#64, by simp [State.readReg, exStateLazy, exStateH, HEAP], rfl⟩,
+    ⟨0x10000040#64, by simp [State.readReg, exStateLazy, exStateH, FREE], rfl⟩⟩
+  simp only [exHeapLazy, exMemLazy, exStateLazy, Scc.Heap.Mem.get_set, Std.HashMap.getD_insert,
+    Scc.Heap.Mem.get_empty]
+  by_cases h1 : 0x100000c0 = a
+  · subst h1; simp
+  by_cases h2 : 0x10000050 = a
+  · subst h2; simp
+  by_cases h3 : 0x10000040 = a
+  · subst h3; simp
+  simp [h1, h2, h3]
+
+theorem exAcquireLazy : ∃ h', Scc.Heap.acquire exHeapLazy = .ok (h', 0x10000000) ∧ h'.heap = 0x10000040 ∧
+    h'.free = 0x10000100 ∧ h'.mem.get 0x10000040 = 0 ∧ h'.mem.get 0x100000c0 = 0 := by
+  simp [Scc.Heap.acquire, Scc.Heap.eraseFields, Scc.Heap.eraseBlock, Scc.Heap.rd, Scc.Heap.wr,
+    Scc.Heap.Mem.get_set, exHeapLazy, exMemLazy, exHeap, Scc.Heap.init, Scc.Heap.fstOff, Scc.Heap.fieldOffset,
+    Scc.Heap.blockSize]
+
+/-- case (2) of `acquire_block`: the head of the lazy free list becomes the next free block, its child
+is erased (count 1 ↦ 0) through the additional temporary `X9` -/
+example : ∃ code st' h', (acquireBlock ⟨8⟩ ⟨9⟩).run 0 = .ok (code, 13) ∧
+    execFwd {} (fun _ => none) code exStateLazy = .ok (st', .fall) ∧ HeapRel {} st' h' ∧
+    st'.readReg ⟨8⟩ = .ok 0x10000000#64 ∧ h'.heap = 0x10000040 ∧ h'.free = 0x10000100 ∧
+    h'.mem.get 0x100000c0 = 0 := by
+  obtain ⟨h', hop, hh, hf, _, hc⟩ := exAcquireLazy
+  obtain ⟨code, hrun, _, st', hx, _, R', ⟨w, hw, ew⟩, _⟩ := C08_acquire_block_correct (la := fun _ => none)
+    exStateLazy_boundary exStateLazy_heapRel (nb := ⟨8⟩) (at' := ⟨9⟩) (by decide) (by decide) (by decide)
+    (by decide) (by decide) hop 0
+  refine ⟨code, st', h', hrun, hx, R', ?_, hh, hf, hc⟩
+  rw [hw]; congr 1; exact BitVec.eq_of_toNat_eq (by rw [ew]; rfl)
+
+/-- `exStateH` viewed as an environment: position 0 = (X4: undefined, X5 = 7), an `ext` variable;
+position 1 = (X6 = pointer 0x10000080, X7 = -3), a producer -/
+def exCtx : Ctx := [⟨⟨"a", 1⟩, .ext, .i64⟩, ⟨⟨"b", 2⟩, .prd, .i64⟩]
+
+theorem exEnv : EnvFieldsM exStateH 0 exCtx [.int 7, .ptr 0x10000080 18446744073709551613] := by
+  refine ⟨?_, ?_, trivial⟩
+  · exact ⟨7#64, rfl, by simp [mview, exStateH, posReg]⟩
+  · exact ⟨0x10000080#64, (-3 : Word), rfl, by simp [mview, exStateH, posReg], by simp [mview, exStateH, posReg]⟩
+
+theorem exStore : ∃ h', Scc.Heap.storeObj exHeap [.int 7, .ptr 0x10000080 18446744073709551613] =
+    .ok (h', 0x10000000) := by
+  simp [Scc.Heap.storeObj, heap_storeFields_cons, heap_storeFields_nil, Scc.Heap.restLength, Scc.Heap.storeValues,
+    Scc.Heap.storeValuesRev, Scc.Heap.storeValue, Scc.Heap.storeZeros, Scc.Heap.storeZerosFrom, Scc.Heap.wr,
+    Scc.Heap.acquire, Scc.Heap.rd, Scc.Heap.Mem.get_set, exHeap, Scc.Heap.init, Scc.Heap.fieldsPerBlock,
+    Scc.Heap.BlockPosition.toNat, Scc.Heap.sndOff, Scc.Heap.fstOff, Scc.Heap.fieldOffset, Scc.Heap.blockSize]
+
+/-- one block: both variables of `exCtx` are stored; X4 (first register of position 0) ends up
+holding the object pointer = the old HEAP -/
+example : ∃ code k' st', (rvBackend.store exCtx []).run 0 = .ok (code, k') ∧
+    execFwd {} (fun _ => none) code exStateH = .ok (st', .fall) ∧
+    st'.readReg ⟨4⟩ = .ok 0x10000000#64 := by
+  obtain ⟨h', hop⟩ := exStore
+  obtain ⟨code, k', hrun, _, _, st', hx, _, _, ⟨w, hw, ew⟩, _⟩ := C08_store_correct (la := fun _ => none)
+    exStateH_boundary exStateH_heapRel (toStore := exCtx) (rem := []) (by decide) (by decide) exEnv hop 0
+  refine ⟨code, k', st', hrun, hx, ?_⟩
+  have : posTemp (2 * ([] : Ctx).length) = ⟨4⟩ := rfl
+  rw [this] at hw
+  rw [hw]; congr 1; exact BitVec.eq_of_toNat_eq (by rw [ew]; rfl)
+
+/-- four integer variables in X5, X7, X9, X11 (second registers of positions 0..3) -/
+def exStateS : State :=
+  { regs := ((((((Array.replicate 32 none).setIfInBounds 2 (some 0x10000000#64)).setIfInBounds 3
+      (some 0x10000040#64)).setIfInBounds 5 (some 1#64)).setIfInBounds 7 (some 2#64)).setIfInBounds 9
+        (some 3#64)).setIfInBounds 11 (some 4#64),
+    mem := ∅, pc := 0 }
+
+theorem exStateS_boundary : Boundary {} exStateS := ⟨by simp [State.WF, exStateS, registerNum], by decide⟩
+
+theorem exStateS_heapRel : HeapRel {} exStateS exHeap :=
+  ⟨rfl, rfl, fun a => by simp [exHeap, Scc.Heap.init, exStateS],
+   ⟨0x10000000#64, by simp [State.readReg, exStateS, HEAP], by decide⟩,
+   ⟨0x10000040#64, by simp [State.readReg, exStateS, FREE], by decide⟩⟩
+
+def exCtx4 : Ctx := [⟨⟨"a", 1⟩, .ext, .i64⟩, ⟨⟨"b", 2⟩, .ext, .i64⟩, ⟨⟨"c", 3⟩, .ext, .i64⟩, ⟨⟨"d", 4⟩, .ext, .i64⟩]
+
+theorem exEnv4 : EnvFieldsM exStateS 0 exCtx4 [.int 1, .int 2, .int 3, .int 4] :=
+  ⟨⟨1#64, rfl, by simp [mview, exStateS, posReg]⟩, ⟨2#64, rfl, by simp [mview, exStateS, posReg]⟩,
+   ⟨3#64, rfl, by simp [mview, exStateS, posReg]⟩, ⟨4#64, rfl, by simp [mview, exStateS, posReg]⟩, trivial⟩
+
+theorem exStore4 : ∃ h', Scc.Heap.storeObj exHeap [.int 1, .int 2, .int 3, .int 4] = .ok (h', 0x10000040) := by
+  simp [Scc.Heap.storeObj, heap_storeFields_cons, heap_storeFields_nil, Scc.Heap.restLength, Scc.Heap.storeValues,
+    Scc.Heap.storeValuesRev, Scc.Heap.storeValue, Scc.Heap.storeZeros, Scc.Heap.storeZerosFrom, Scc.Heap.wr,
+    Scc.Heap.acquire, Scc.Heap.rd, Scc.Heap.Mem.get_set, exHeap, Scc.Heap.init, Scc.Heap.fieldsPerBlock,
+    Scc.Heap.BlockPosition.toNat, Scc.Heap.sndOff, Scc.Heap.fstOff, Scc.Heap.fieldOffset, Scc.Heap.blockSize]
+
+/-- a chain of TWO blocks (4 fields): the object pointer is the second acquired block -/
+example : ∃ code k' st', (rvBackend.store exCtx4 []).run 0 = .ok (code, k') ∧
+    execFwd {} (fun _ => none) code exStateS = .ok (st', .fall) ∧
+    st'.readReg ⟨4⟩ = .ok 0x10000040#64 := by
+  obtain ⟨h', hop⟩ := exStore4
+  obtain ⟨code, k', hrun, _, _, st', hx, _, _, ⟨w, hw, ew⟩, _⟩ := C08_store_correct (la := fun _ => none)
+    exStateS_boundary exStateS_heapRel (toStore := exCtx4) (rem := []) (by decide) (by decide) exEnv4 hop 0
+  refine ⟨code, k', st', hrun, hx, ?_⟩
+  have : posTemp (2 * ([] : Ctx).length) = ⟨4⟩ := rfl
+  rw [this] at hw
+  rw [hw]; congr 1; exact BitVec.eq_of_toNat_eq (by rw [ew]; rfl)
+
+/-- the capacity hypotheses of `C08_store_correct` are the capacity of the real code: with 14 variables
+remaining there is no register for the result (position 14): the Rust panic "Out of registers" -/
+example (rem : Ctx) (h : rem.length = 14) (k : Nat) :
+    (rvBackend.store [] rem).run k = .error "Out of registers" := by
+  show (storeFields [] rem .last).run k = _
+  rw [storeFields]
+  simp only [List.isEmpty_nil, dite_true, beq_self_eq_true, if_true]
+  unfold freshTemporary positionRegister
+  rw [h]
+  rfl
+
+/-- a heap holding at 0x10000080 an object of two fields — an integer 7 and a pointer 0x100000c0 with
+word 9 — whose count is `cnt` -/
+def exMemObj (cnt : Nat) : Scc.Heap.Mem :=
+  (((Scc.Heap.Mem.empty.set 0x10000080 cnt).set 0x100000a8 7).set 0x100000b0 0x100000c0).set 0x100000b8 9
+
+def exHeapObj (cnt : Nat) : Scc.Heap.HState := { exHeap with mem := exMemObj cnt }
+
+/-- `exStateH` (X6 = 0x10000080: first register of position 1) with that heap -/
+def exStateObj (cnt : Word) : State :=
+  { exStateH with mem := ((((∅ : Std.HashMap Nat Word).insert 0x10000080 cnt).insert 0x100000a8 7#64).insert
+      0x100000b0 0x100000c0#64).insert 0x100000b8 9#64 }
+
+theorem exStateObj_boundary (cnt : Word) : Boundary {} (exStateObj cnt) :=
+  ⟨by simp [State.WF, exStateObj, exStateH, registerNum], by decide⟩
+
+theorem exStateObj_heapRel (cnt : Word) : HeapRel {} (exStateObj cnt) (exHeapObj cnt.toNat) := by
+  refine ⟨rfl, rfl, fun a => ?_, ⟨0x10000000#64, by simp [State.readReg, exStateObj, exStateH, HEAP], rfl⟩,
+    ⟨0x10000040#64, by simp [State.readReg, exStateObj, exStateH, FREE], rfl⟩⟩
+  simp only [exHeapObj, exMemObj, exStateObj, Scc.Heap.Mem.get_set, Std.HashMap.getD_insert, exHeap, Scc.Heap.init,
+    Scc.Heap.Mem.get_empty]
+  by_cases h1 : 0x100000b8 = a
+  · subst h1; simp
+  by_cases h2 : 0x100000b0 = a
+  · subst h2; simp
+  by_cases h3 : 0x100000a8 = a
+  · subst h3; simp
+  by_cases h4 : 0x10000080 = a
+  · subst h4; simp
+  simp [h1, h2, h3, h4]
+
+/-- the variables to load: an integer and a producer, at positions 1 and 2 (after `a` at position 0) -/
+def exLoadCtx : Ctx := [⟨⟨"x", 3⟩, .ext, .i64⟩, ⟨⟨"y", 4⟩, .prd, .i64⟩]
+
+theorem exLoadUnique : ∃ h', Scc.Heap.loadObj (exHeapObj 0) (0x10000080#64).toNat (exLoadCtx.map kindOf) =
+    .ok (h', [.int 7, .ptr 0x100000c0 9]) := by
+  simp [Scc.Heap.loadObj, heap_loadFields_cons, heap_loadFields_nil, Scc.Heap.restLength, Scc.Heap.loadValues,
+    Scc.Heap.loadValuesRev, Scc.Heap.loadValue, Scc.Heap.releaseBlock, Scc.Heap.wr, Scc.Heap.rd,
+    Scc.Heap.Mem.get_set, exHeapObj, exMemObj, exHeap, Scc.Heap.init, Scc.Heap.fieldsPerBlock,
+    Scc.Heap.BlockPosition.toNat, Scc.Heap.sndOff, Scc.Heap.fstOff, Scc.Heap.fieldOffset, exLoadCtx, kindOf,
+    show (Chi.prd != Chi.ext) = true from rfl, show (Chi.ext != Chi.ext) = false from rfl]
+
+theorem exLoadShared : ∃ h', Scc.Heap.loadObj (exHeapObj 1) (0x10000080#64).toNat (exLoadCtx.map kindOf) =
+    .ok (h', [.int 7, .ptr 0x100000c0 9]) ∧ h'.mem.get 0x10000080 = 0 ∧ h'.mem.get 0x100000c0 = 1 ∧
+      ∀ a, h'.mem.get a < 2 ^ 64 := by
+  simp [Scc.Heap.loadObj, heap_loadFields_cons, heap_loadFields_nil, Scc.Heap.restLength, Scc.Heap.loadValues,
+    Scc.Heap.loadValuesRev, Scc.Heap.loadValue, Scc.Heap.shareBlock, Scc.Heap.wr, Scc.Heap.rd,
+    Scc.Heap.Mem.get_set, exHeapObj, exMemObj, exHeap, Scc.Heap.init, Scc.Heap.fieldsPerBlock,
+    Scc.Heap.BlockPosition.toNat, Scc.Heap.sndOff, Scc.Heap.fstOff, Scc.Heap.fieldOffset, exLoadCtx, kindOf,
+    show (Chi.prd != Chi.ext) = true from rfl, show (Chi.ext != Chi.ext) = false from rfl]
+  intro a
+  repeat' split
+  all_goals omega
+
+theorem exStateObj_ptr (cnt : Word) :
+    (exStateObj cnt).readReg (posTemp (2 * [(⟨⟨"a", 1⟩, .ext, .i64⟩ : Binding)].length)) = .ok 0x10000080#64 := by
+  simp [State.readReg, exStateObj, exStateH, posTemp, posReg]
+
+/-- unique load: X8 (first register of position 2) ends up holding the child pointer, X9 the word 9,
+X7 (second register of position 1) the integer 7; X5 (variable `a` of the existing context) is kept -/
+example : ∃ code k' st', (rvBackend.load exLoadCtx [⟨⟨"a", 1⟩, .ext, .i64⟩]).run 0 = .ok (code, k') ∧
+    execFwd {} (fun _ => none) code (exStateObj 0) = .ok (st', .fall) ∧
+    EnvFieldsM st' 1 exLoadCtx [.int 7, .ptr 0x100000c0 9] ∧
+    st'.readReg ⟨5⟩ = .ok 7#64 := by
+  obtain ⟨h', hop⟩ := exLoadUnique
+  obtain ⟨code, k', hrun, _, _, st', hx, _, _, hE, F⟩ := C08_load_unique_correct (la := fun _ => none)
+    (exStateObj_boundary 0) (exStateObj_heapRel 0) (toLoad := exLoadCtx)
+    (existing := [⟨⟨"a", 1⟩, .ext, .i64⟩]) (by decide) (pw := 0x10000080#64) (exStateObj_ptr 0)
+    (by simp [exHeapObj, exMemObj, Scc.Heap.Mem.get_set]) hop 0
+  refine ⟨code, k', st', hrun, hx, hE, ?_⟩
+  rw [F.readReg ⟨5⟩ (by
+    rintro (e | e | ⟨m, h1, _, e⟩)
+    · cases e
+    · cases e
+    · simp [posReg] at h1 e; omega) (by decide)]
+  simp [State.readReg, exStateObj, exStateH]
+
+/-- shared load: the object's count drops to 0, the child's count rises to 1 -/
+example : ∃ code k' st' h', (rvBackend.load exLoadCtx [⟨⟨"a", 1⟩, .ext, .i64⟩]).run 0 = .ok (code, k') ∧
+    execFwd {} (fun _ => none) code (exStateObj 1) = .ok (st', .fall) ∧ HeapRel {} st' h' ∧
+    EnvFieldsM st' 1 exLoadCtx [.int 7, .ptr 0x100000c0 9] ∧
+    h'.mem.get 0x10000080 = 0 ∧ h'.mem.get 0x100000c0 = 1 := by
+  obtain ⟨h', hop, hc1, hc2, hno⟩ := exLoadShared
+  obtain ⟨code, k', hrun, _, _, st', hx, _, R', hE, _⟩ := C08_load_shared_correct (la := fun _ => none)
+    (exStateObj_boundary 1) (exStateObj_heapRel 1) (toLoad := exLoadCtx)
+    (existing := [⟨⟨"a", 1⟩, .ext, .i64⟩]) (by decide) (pw := 0x10000080#64) (exStateObj_ptr 1)
+    (by simp [exHeapObj, exMemObj, Scc.Heap.Mem.get_set]) hop hno 0
+  exact ⟨code, k', st', h', hrun, hx, R', hE, hc1, hc2⟩
+
+/-- the heap after `store exCtx4` (the chain of two blocks of the example above): the object is at
+0x10000040 (field 1 = 1, link to 0x10000000), the block 0x10000000 holds 2, 3, 4 -/
+def exMemChain : Scc.Heap.Mem :=
+  ((((Scc.Heap.Mem.empty.set 0x10000068 1).set 0x10000070 0x10000000).set 0x10000018 2).set 0x10000028 3).set
+    0x10000038 4
+
+def exHeapChain : Scc.Heap.HState :=
+  { exHeap with mem := exMemChain, heap := 0x10000080, free := 0x100000c0 }
+
+/-- the object pointer in X4 (first register of position 0), HEAP and FREE as after the store -/
+def exStateChain : State :=
+  { regs := (((Array.replicate 32 none).setIfInBounds 2 (some 0x10000080#64)).setIfInBounds 3
+      (some 0x100000c0#64)).setIfInBounds 4 (some 0x10000040#64),
+    mem := (((((∅ : Std.HashMap Nat Word).insert 0x10000068 1#64).insert 0x10000070 0x10000000#64).insert
+      0x10000018 2#64).insert 0x10000028 3#64).insert 0x10000038 4#64,
+    pc := 0 }
+
+theorem exStateChain_boundary : Boundary {} exStateChain :=
+  ⟨by simp [State.WF, exStateChain, registerNum], by decide⟩
+
+theorem exStateChain_heapRel : HeapRel {} exStateChain exHeapChain := by
+  refine ⟨rfl, rfl, fun a => ?_, ⟨0x10000080#64, by simp [State.readReg, exStateChain, HEAP], rfl⟩,
+    ⟨0x100000c0#64, by simp [State.readReg, exStateChain, FREE], rfl⟩⟩
+  simp only [exHeapChain, exMemChain, exStateChain, Scc.Heap.Mem.get_set, Std.HashMap.getD_insert,
+    Scc.Heap.Mem.get_empty]
+  by_cases h1 : 0x10000038 = a
+  · subst h1; simp
+  by_cases h2 : 0x10000028 = a
+  · subst h2; simp
+  by_cases h3 : 0x10000018 = a
+  · subst h3; simp
+  by_cases h4 : 0x10000070 = a
+  · subst h4; simp
+  by_cases h5 : 0x10000068 = a
+  · subst h5; simp
+  simp [h1, h2, h3, h4, h5]
+
+theorem exLoadChain : ∃ h', Scc.Heap.loadObj exHeapChain (0x10000040#64).toNat (exCtx4.map kindOf) =
+    .ok (h', [.int 1, .int 2, .int 3, .int 4]) ∧ h'.heap = 0x10000000 := by
+  simp [Scc.Heap.loadObj, heap_loadFields_cons, heap_loadFields_nil, Scc.Heap.restLength, Scc.Heap.loadValues,
+    Scc.Heap.loadValuesRev, Scc.Heap.loadValue, Scc.Heap.releaseBlock, Scc.Heap.wr, Scc.Heap.rd,
+    Scc.Heap.Mem.get_set, exHeapChain, exMemChain, exHeap, Scc.Heap.init, Scc.Heap.fieldsPerBlock,
+    Scc.Heap.BlockPosition.toNat, Scc.Heap.sndOff, Scc.Heap.fstOff, Scc.Heap.fieldOffset, exCtx4, kindOf,
+    show (Chi.ext != Chi.ext) = false from rfl]
+
+/-- unique load of a chain of TWO blocks (4 fields): the four integers end up in X5, X7, X9, X11, both
+blocks are back on the linear free list (HEAP = the second block of the chain) -/
+example : ∃ code k' st' h', (rvBackend.load exCtx4 []).run 0 = .ok (code, k') ∧
+    execFwd {} (fun _ => none) code exStateChain = .ok (st', .fall) ∧ HeapRel {} st' h' ∧
+    EnvFieldsM st' 0 exCtx4 [.int 1, .int 2, .int 3, .int 4] ∧ h'.heap = 0x10000000 := by
+  obtain ⟨h', hop, hh⟩ := exLoadChain
+  obtain ⟨code, k', hrun, _, _, st', hx, _, R', hE, _⟩ := C08_load_unique_correct (la := fun _ => none)
+    exStateChain_boundary exStateChain_heapRel (toLoad := exCtx4) (existing := []) (by decide)
+    (pw := 0x10000040#64) (by simp [State.readReg, exStateChain, posTemp, posReg])
+    (by simp [exHeapChain, exMemChain, Scc.Heap.Mem.get_set]) hop 0
+  exact ⟨code, k', st', h', hrun, hx, R', hE, hh⟩
+
+/-! ### the bridge: a concrete laid-out program -/
+
+/-- the code of `share_block_n X6 2` (label `lab1`) -/
+def exShareCode : List Code :=
+  [.BEQ ⟨6⟩ ZERO (labName 1), .COMMENT "####increment refcount", .LW TEMP ⟨6⟩ referenceCountOffset,
+   .ADDI TEMP TEMP 2, .SW TEMP ⟨6⟩ referenceCountOffset, .LAB (labName 1)]
+
+/-- … laid out at item 0 (the comment is dropped; `lab1` is item 4) -/
+def exProg : Program :=
+  { items := #[⟨1, .BEQ ⟨6⟩ ZERO (labName 1), 0x400000, none⟩, ⟨3, .LW TEMP ⟨6⟩ referenceCountOffset, 0x400004, none⟩,
+      ⟨4, .ADDI TEMP TEMP 2, 0x400008, none⟩, ⟨5, .SW TEMP ⟨6⟩ referenceCountOffset, 0x40000c, none⟩,
+      ⟨7, .LAB (labName 1), 0x400010, none⟩],
+    labelIdx := (∅ : Std.HashMap String Nat).insert (labName 1) 4, addrIdx := ∅, entry := none }
+
+theorem exProg_blockAt : BlockAt exProg exStateH.pc (stripComments exShareCode) := by
+  have hs : stripComments exShareCode = [.BEQ ⟨6⟩ ZERO (labName 1), .LW TEMP ⟨6⟩ referenceCountOffset,
+      .ADDI TEMP TEMP 2, .SW TEMP ⟨6⟩ referenceCountOffset, .LAB (labName 1)] := rfl
+  rw [hs]
+  refine ⟨fun i h => ?_, fun j l h => ?_⟩
+  · match i, h with
+    | 0, _ => exact ⟨_, rfl, rfl⟩
+    | 1, _ => exact ⟨_, rfl, rfl⟩
+    | 2, _ => exact ⟨_, rfl, rfl⟩
+    | 3, _ => exact ⟨_, rfl, rfl⟩
+    | 4, _ => exact ⟨_, rfl, rfl⟩
+    | n + 5, h => simp at h; omega
+  · match j, h with
+    | 0, h => simp at h
+    | 1, h => simp at h
+    | 2, h => simp at h
+    | 3, h => simp at h
+    | 4, h =>
+      simp at h
+      subst h
+      simp [exProg, exStateH]
+    | n + 5, h => simp at h
+
+theorem exProg_runnable : Runnable (stripComments exShareCode) := runnable_of_B (by decide)
+
+/-- `share_block_n X6 2` run by the machine's loop from `exStateH`: after `k` units of fuel the loop is
+behind the block (item 5) and the count of the block 0x10000080 is 2 -/
+example : ∃ k st', (∀ fuel, runLoop exProg {} (fuel + k) exStateH = runLoop exProg {} fuel st') ∧
+    st'.pc = 5 ∧ st'.mem.getD 0x10000080 0 = 2#64 := by
+  obtain ⟨code, c', s', hrun, hx, hmem, _, _⟩ := shareBlockN_spec {} exProg.labelAddr ⟨6⟩ 2 0 exStateH
+    exStateH_boundary.wf 0x10000080#64 (by simp [State.readReg, exStateH]) (by decide) (by decide)
+    (by simp [checkAddr, heapBase])
+  rw [shareBlockN_run] at hrun
+  simp only [Except.ok.injEq, Prod.mk.injEq] at hrun
+  obtain ⟨rfl, _⟩ := hrun
+  obtain ⟨k, steps', hk⟩ := C08_machine_run_fwd exProg {} exShareCode exStateH s' exProg_blockAt
+    exProg_runnable hx
+  refine ⟨k, _, hk, rfl, ?_⟩
+  simp only [setPS]
+  rw [hmem]
+  simp [exStateH, imm]
+
 end Scc.RV
 
 #print axioms Scc.RV.C08_capacity
@@ -353,3 +904,12 @@ end Scc.RV
 #print axioms Scc.RV.C08_B_ifZeroThenElse
 #print axioms Scc.RV.C08_B_shareBlockN
 #print axioms Scc.RV.C08_B_eraseBlock
+#print axioms Scc.RV.C08_acquire_block_correct
+#print axioms Scc.RV.C08_store_correct
+#print axioms Scc.RV.C08_load_correct
+#print axioms Scc.RV.C08_load_unique_correct
+#print axioms Scc.RV.C08_load_shared_correct
+#print axioms Scc.RV.C08_machine_run_fwd
+#print axioms Scc.RV.C08_acquire_block_runs
+#print axioms Scc.RV.C08_store_runs
+#print axioms Scc.RV.C08_load_runs
